@@ -74,6 +74,20 @@ func mutateReq(r *R, q Req, other []Req) Req {
 	if r.P(0.1) {
 		q.Shape = r.Intn(nShapes) // same URL for most shapes: a cache does not key on protocol version, TLS or peer address
 	}
+	if nov := dict.tokens.novel; len(nov) > 0 && r.P(0.12) {
+		// literals that are NEW in the tree under test, in combination: up to three of them as
+		// header names, each with a new literal (or "true"/"1") as its value - a test the tree
+		// makes on two or three request headers at once is met by no single mutation
+		for i, k := 0, r.Range(2, 3); i < k; i++ {
+			name := http.CanonicalHeaderKey(pick(r, nov))
+			val := pick(r, []string{"true", "1"})
+			if len(dict.any.novel) > 0 && r.P(0.8) {
+				val = pick(r, dict.any.novel)
+			}
+			q = q.with(name, val)
+		}
+		return q
+	}
 	n := r.Range(1, 2)
 	for i := 0; i < n; i++ {
 		k := pick(r, names)
